@@ -78,6 +78,7 @@ impl Srv {
                 let mut h = [0u8; 48];
                 s.read_exact(&mut h).ok()?;
                 let total = u64::from_le_bytes(h[0..8].try_into().unwrap()) as usize;
+                if total > (256 << 20) { return None; } // never trust a declared length with an allocation
                 let mut rest = vec![0u8; total.checked_sub(48)?];
                 s.read_exact(&mut rest).ok()?;
                 [h.to_vec(), rest].concat()
@@ -165,9 +166,23 @@ impl AnyClient {
     }
 }
 
+/// a scripted ERROR reply: it answers the call like any other response (the caller gets it, as Err(ServerError))
+fn err_frame(id: u64, tag: u64) -> Vec<u8> {
+    let mut m = Message::builder().id(id).query_str(&format!("/c{tag}")).error_code(repe::ErrorCode::ApplicationErrorBase).body_utf8(&format!("E:{id}:{tag}")).build();
+    m.header.ec = 4096;
+    m.to_vec()
+}
+fn parse_err_marker(msg: &str) -> Option<(u64, u64)> {
+    let rest = msg.split("E:").nth(1)?;
+    let mut it = rest.split(':');
+    let id = it.next()?.trim().parse().ok()?;
+    let tag: String = it.next()?.chars().take_while(|c| c.is_ascii_digit()).collect();
+    Some((id, tag.parse().ok()?))
+}
 fn classify(r: Result<Value, RepeError>) -> (String, u64, u64, String) {
     match r {
         Ok(v) => ("ok".into(), v["id"].as_u64().unwrap_or(0), v["tag"].as_u64().unwrap_or(0), String::new()),
+        Err(RepeError::ServerError { message, .. }) if parse_err_marker(&message).is_some() => { let (i, t) = parse_err_marker(&message).unwrap(); ("ok".into(), i, t, "error reply".into()) }
         Err(RepeError::Io(e)) if e.kind() == std::io::ErrorKind::TimedOut => ("timeout".into(), 0, 0, e.to_string()),
         Err(e) => ("err".into(), 0, 0, e.to_string().chars().take(80).collect()),
     }
@@ -645,7 +660,19 @@ fn replay_one(kind: Kind, beh: &Value, rt: &tokio::runtime::Runtime) -> Result<u
         verif::gate(&format!("cm_allocated:{id}"));
         verif::gate(&format!("cm_registered:{id}"));
         verif::gate(&format!("cm_written:{id}"));
+        // the caller has been handed its response and has not yet looked at it: the specification's Take
+        verif::gate(&format!("cm_received:{id}"));
     }
+    // forwarded requests (forward_message, async client): their own probes, named after the id the caller chose
+    let has_forward = steps.iter().any(|st| st[0] == "AllocF");
+    if has_forward {
+        for id in 1..=ncallers + 9 {
+            verif::gate(&format!("cmf_before_register:{id}"));
+            verif::gate(&format!("cmf_registered:{id}"));
+            verif::gate(&format!("cmf_written:{id}"));
+        }
+    }
+    let mut forwarders: std::collections::HashSet<u64> = Default::default();
     let listener = TcpListener::bind("127.0.0.1:0").unwrap();
     let addr = listener.local_addr().unwrap();
     let acc = std::thread::spawn(move || Srv::accept(&listener, kind));
@@ -681,6 +708,52 @@ fn replay_one(kind: Kind, beh: &Value, rt: &tokio::runtime::Runtime) -> Result<u
                 }
                 rx_of.insert(x, rx);
                 if !verif::await_parked(&format!("cm_allocated:{id}"), 1, wait) { return finish(client, Err(fail(format!("the caller did not stop after allocating request id {id} (ids must be issued in allocation order)")))); }
+            }
+            "AllocF" => {
+                let AnyClient::Async(c) = &client else { return finish(client, Err(fail("forward_message exists on the async client only".into()))) };
+                let id = st[3].as_u64().unwrap_or(0);
+                id_of.insert(x, id);
+                forwarders.insert(x);
+                let (tx, rx) = std::sync::mpsc::channel();
+                let msg = Message::builder().id(id).query_str(&format!("/c{x}")).query_format_code(1).body_json(&json!({"c": x})).unwrap().build();
+                let c = c.clone();
+                rt.spawn(async move {
+                    let r = c.forward_message(&msg).await;
+                    let out = match r {
+                        Ok(Some(resp)) if resp.header.ec != 0 => parse_err_marker(&String::from_utf8_lossy(&resp.body)).map(|(i, t)| ("ok".to_string(), i, t, "error reply".to_string())).unwrap_or(("err".into(), 0, 0, "unparsable error reply".into())),
+                        Ok(Some(resp)) => { let v: Value = resp.json_body().unwrap_or(Value::Null); ("ok".to_string(), v["id"].as_u64().unwrap_or(0), v["tag"].as_u64().unwrap_or(0), String::new()) }
+                        Ok(None) => ("err".to_string(), 0, 0, "no response".to_string()),
+                        Err(e) if e.to_string().contains("already pending") => ("exists".to_string(), 0, 0, e.to_string()),
+                        Err(e) => ("err".to_string(), 0, 0, e.to_string().chars().take(80).collect()),
+                    };
+                    let _ = tx.send(out);
+                });
+                rx_of.insert(x, rx);
+                if !verif::await_parked(&format!("cmf_before_register:{id}"), 1, wait) { return finish(client, Err(fail(format!("the forwarding caller did not reach the point before registering id {id}")))); }
+            }
+            "RegisterF" => {
+                let id = id_of[&x];
+                verif::release(&format!("cmf_before_register:{id}"));
+                if !verif::await_parked(&format!("cmf_registered:{id}"), 1, wait) {
+                    let early = rx_of.get(&x).and_then(|rx| rx.try_recv().ok());
+                    return finish(client, Err(fail(format!("the forwarded request with id {id} was not registered (the specification: that id is free); the caller returned {early:?}"))));
+                }
+            }
+            "RegisterFRefused" => {
+                let id = id_of[&x];
+                verif::release(&format!("cmf_before_register:{id}"));
+                // refused: the caller returns at once (checked at its Take below? no Take follows a refusal: check here)
+                let got = rx_of.remove(&x).and_then(|rx| rx.recv_timeout(wait).ok());
+                match got {
+                    Some((cls, _, _, _)) if cls == "exists" => {}
+                    other => return finish(client, Err(fail(format!("forwarding id {id} while it is in flight returned {other:?}, the specification: refused (already pending)")))),
+                }
+            }
+            "Write" if forwarders.contains(&x) => {
+                let id = id_of[&x];
+                verif::release(&format!("cmf_registered:{id}"));
+                if !verif::await_parked(&format!("cmf_written:{id}"), 1, wait) { return finish(client, Err(fail("the forwarding caller did not finish writing its request".into()))); }
+                verif::release(&format!("cmf_written:{id}"));
             }
             "Register" => {
                 let id = id_of[&x];
@@ -725,7 +798,8 @@ fn replay_one(kind: Kind, beh: &Value, rt: &tokio::runtime::Runtime) -> Result<u
                 let t0 = Instant::now();
                 while verif::passed("cm_fail_drained") == before { if t0.elapsed() > wait { return finish(client, Err(fail("the failing reader did not leave the probe after draining".into()))); } std::thread::sleep(Duration::from_micros(100)); }
             }
-            "SrvReply" => { srv.send(&resp_frame(x, x)); }
+            // in behaviours with forwarded requests every other reply is an ERROR reply (it answers the call all the same)
+            "SrvReply" => { if has_forward && x % 2 == 1 { srv.send(&err_frame(x, x)); } else { srv.send(&resp_frame(x, x)); } }
             "SrvJunk" => { if x == 0 { srv.send(&resp_frame(if i % 2 == 0 { 0 } else { 777_000 + i as u64 }, 99)); } else { srv.send(&resp_frame(x, 99)); } }
             "Recv" if x == 1 => { if !verif::await_parked("cm_fail_start", 1, wait) { return finish(client, Err(fail("the reader did not start failing the connection after the fault".into()))); } }
             "Dispatch" if x == 1 => {}
@@ -737,6 +811,7 @@ fn replay_one(kind: Kind, beh: &Value, rt: &tokio::runtime::Runtime) -> Result<u
                 while verif::passed("cm_reader_read") == before { if t0.elapsed() > wait { return finish(client, Err(fail("the reader did not leave the probe".into()))); } std::thread::sleep(Duration::from_micros(100)); }
             }
             "Take" => {
+                if !forwarders.contains(&x) { if let Some(id) = id_of.get(&x) { verif::release(&format!("cm_received:{id}")); } }
                 let got = rx_of.remove(&x).and_then(|rx| rx.recv_timeout(wait).ok());
                 let want = &beh["results"][(x - 1) as usize];
                 match got {
